@@ -2,16 +2,22 @@
 # tools/mutant.sh <patch.diff> <Cxx> [quick|thorough]   (extra env passed through, e.g. VERIF_SEED, VERIF_WALL)
 # Applies the patch to a scratch git worktree of /repo (never to /repo itself), runs the check against
 # that tree with outputs under the scratch dir, prints the verdict, removes everything.
+# The scratch tree is /repo's HEAD overlaid with /repo's uncommitted working-tree state (modified and
+# untracked files), so hook files that are not committed yet are present.
 set -u
 PATCH=$(readlink -f "$1"); PROP=$2; TIER=${3:-quick}
 ROOT=$(dirname "$(dirname "$(readlink -f "$0")")")
 W=$(mktemp -d /tmp/mut-XXXXXX)
 trap 'git -C /repo worktree remove --force "$W/repo" >/dev/null 2>&1; rm -rf "$W"; git -C /repo worktree prune' EXIT
 git -C /repo worktree add --detach "$W/repo" HEAD >/dev/null 2>&1 || { echo "MUTANT: worktree failed"; exit 2; }
+git -C /repo diff HEAD > "$W/wt.diff"
+if [ -s "$W/wt.diff" ]; then git -C "$W/repo" apply "$W/wt.diff" || { echo "MUTANT: working-tree overlay failed"; exit 2; }; fi
+(cd /repo && git ls-files -o --exclude-standard -z | xargs -0 -r cp --parents -t "$W/repo") 2>/dev/null
 if ! git -C "$W/repo" apply "$PATCH"; then echo "MUTANT: patch does not apply"; exit 2; fi
 VERIF_REPO="$W/repo" VERIF_OUT="$W/out" "$ROOT/check" "$PROP" "$TIER" > "$W/log" 2>&1
 rc=$?
 grep -E "^VIOLATION|^KNOWN-FINDING|^HARNESS|^  oracle|^C[0-9]+ " "$W/log" | cut -c1-400 | head -12
+if [ $rc -eq 2 ]; then tail -15 "$W/log" | cut -c1-300; fi
 if [ -n "${MUTANT_KEEP_REPLAY:-}" ] && ls "$W"/out/replays/*/*.json >/dev/null 2>&1; then mkdir -p "$MUTANT_KEEP_REPLAY"; cp "$W"/out/replays/*/*.json "$MUTANT_KEEP_REPLAY"/; fi
 echo "MUTANT $(basename "$PATCH") $PROP $TIER: exit=$rc"
 exit $rc
